@@ -256,8 +256,8 @@ func (c *Check) goroutineRules(prop, rel string, fns []string) {
 			}
 		case !inLoop:
 			n := adds[0].Call.Args[1]
-			if k, ok := n.(*ssa.Const); ok && int(k.Int64()) == len(gos) {
-				c.ok(prop+"-R2", key, p.relFile(adds[0].Pos()), fmt.Sprintf("wg.Add(%d) matches %d go statements in %s", k.Int64(), len(gos), name), "constant count equals the number of launches")
+			if k, ok := n.(*ssa.Const); ok && int(safeInt64(k)) == len(gos) {
+				c.ok(prop+"-R2", key, p.relFile(adds[0].Pos()), fmt.Sprintf("wg.Add(%d) matches %d go statements in %s", safeInt64(k), len(gos), name), "constant count equals the number of launches")
 			} else {
 				c.bad(prop+"-R2", key, p.relFile(adds[0].Pos()), fmt.Sprintf("wg.Add argument %s does not equal the %d goroutines started in %s", describeValue(n), len(gos), name))
 			}
@@ -444,7 +444,7 @@ func (c *Check) goroutineRules(prop, rel string, fns []string) {
 
 func isConstInt(v ssa.Value, n int64) bool {
 	k, ok := v.(*ssa.Const)
-	return ok && k.Value != nil && k.Value.Kind() == constant.Int && k.Int64() == n
+	return ok && k.Value != nil && k.Value.Kind() == constant.Int && safeInt64(k) == n
 }
 
 // lenSlice: v is len(xs); returns xs.
@@ -963,14 +963,14 @@ func (c *Check) chunkTiling() {
 	okStart := true
 	for _, e := range start.Edges {
 		if k, ok := e.(*ssa.Const); ok {
-			if k.Int64() != 0 {
+			if safeInt64(k) != 0 {
 				okStart = false
 			}
 			continue
 		}
 		if add, ok := e.(*ssa.BinOp); ok && add.Op == token.ADD && add.X == ssa.Value(start) {
 			if k, ok := add.Y.(*ssa.Const); ok {
-				step = k.Int64()
+				step = safeInt64(k)
 				continue
 			}
 		}
@@ -996,7 +996,7 @@ func (c *Check) chunkTiling() {
 		if !ok {
 			return 0, false
 		}
-		return k.Int64(), true
+		return safeInt64(k), true
 	}
 	switch e := sl.High.(type) {
 	case *ssa.Phi:
